@@ -3,6 +3,8 @@ import Proofs.ParseSection
 message again, up to the ASCII case of names that were compressed against differently-cased earlier occurrences. -/
 namespace Model
 
+variable {Rs : RelSpec}
+
 /-! ### the section loops of the renderer, relative form -/
 
 theorem addItems_rel (items : List Item) : ∀ (s s' : RState), s.addItems items = .ok (s', false) →
@@ -49,8 +51,8 @@ theorem addItems_rel (items : List Item) : ∀ (s s' : RState), s.addItems items
 
 /-! ### questions -/
 
-structure QOk (r : RRset) : Prop where
-  name : NameOk none r.name
+structure QOk (Rs : RelSpec) (r : RRset) : Prop where
+  name : NameOk Rs none r.name
   rdtype : r.rdtype < 65536
   rdclass : r.rdclass < 65536
   covers : r.covers = 0
@@ -60,11 +62,11 @@ structure QOk (r : RRset) : Prop where
 
 theorem parseQuestions_items (cfg : PCfg) (horg : cfg.origin = none) (qs : List RRset) :
     ∀ (A post : Bytes) (t : CTable) (q : Bytes × CTable) (st : PState), st.cur = A.length →
-      TableSound NameEqv A t → (∀ r ∈ qs, QOk r) →
+      TableSound Rs.R A t → (∀ r ∈ qs, QOk Rs r) →
       itemsExt none A.length t (qs.map fun r => Item.q r.name r.rdtype r.rdclass) = .ok q →
       ∃ qs', parseQuestions cfg false (A ++ q.1 ++ post) qs.length st =
           .ok { st with cur := A.length + q.1.length, q := st.q ++ qs' }
-        ∧ SimList RRset.sim qs' qs ∧ TableSound NameEqv (A ++ q.1) (t ++ q.2) := by
+        ∧ SimList (RRset.sim Rs) qs' qs ∧ TableSound Rs.R (A ++ q.1) (t ++ q.2) := by
   induction qs with
   | nil =>
     intro A post t q st hcur hs _ h
@@ -107,7 +109,7 @@ theorem parseQuestions_items (cfg : PCfg) (horg : cfg.origin = none) (qs : List 
         -- the remaining questions
         have hA' : (A ++ (q1.1 ++ u16 r.rdtype ++ u16 r.rdclass)).length = A.length + (q1.1.length + 4) := by
           simp [u16]
-        have hs' : TableSound NameEqv (A ++ (q1.1 ++ u16 r.rdtype ++ u16 r.rdclass)) (t ++ q1.2) := by
+        have hs' : TableSound Rs.R (A ++ (q1.1 ++ u16 r.rdtype ++ u16 r.rdclass)) (t ++ q1.2) := by
           have := s1.mono (u16 r.rdtype ++ u16 r.rdclass)
           simpa [List.append_assoc] using this
         obtain ⟨qs', hp2, hsims, hs2⟩ := ih (A ++ (q1.1 ++ u16 r.rdtype ++ u16 r.rdclass)) post (t ++ q1.2) q2
@@ -135,27 +137,29 @@ end Model
 
 namespace Model
 
+variable {Rs : RelSpec}
+
 /-- well-formed message for the first render-then-parse theorem -/
-structure MsgOk (m : Message) : Prop where
+structure MsgOk (Rs : RelSpec) (m : Message) : Prop where
   origin : m.origin = none
   id : m.id < 65536
   flags : m.flags < 65536
   notUpdate : isUpdate m.flags = false
   noOpt : m.opt = none
   noTsig : m.tsig = none
-  q : ∀ r ∈ m.q, QOk r
-  an : ∀ r ∈ m.an, RRsetOk r
-  au : ∀ r ∈ m.au, RRsetOk r
-  ad : ∀ r ∈ m.ad, RRsetOk r
+  q : ∀ r ∈ m.q, QOk Rs r
+  an : ∀ r ∈ m.an, RRsetOk Rs r
+  au : ∀ r ∈ m.au, RRsetOk Rs r
+  ad : ∀ r ∈ m.ad, RRsetOk Rs r
   keysAn : m.an.Pairwise (fun a b => keyMatch b.name b.rdclass b.rdtype b.covers none a = false)
   keysAu : m.au.Pairwise (fun a b => keyMatch b.name b.rdclass b.rdtype b.covers none a = false)
   keysAd : m.ad.Pairwise (fun a b => keyMatch b.name b.rdclass b.rdtype b.covers none a = false)
   counts : m.q.length < 65536 ∧ rrCount m.an < 65536 ∧ rrCount m.au < 65536 ∧ rrCount m.ad < 65536
 
 /-- equal up to the ASCII case of names -/
-def Message.sim (a b : Message) : Prop :=
-  a.id = b.id ∧ a.flags = b.flags ∧ SimList RRset.sim a.q b.q ∧ SimList RRset.sim a.an b.an ∧
-    SimList RRset.sim a.au b.au ∧ SimList RRset.sim a.ad b.ad ∧ a.opt = b.opt ∧ a.tsig = b.tsig
+def Message.sim (Rs : RelSpec) (a b : Message) : Prop :=
+  a.id = b.id ∧ a.flags = b.flags ∧ SimList (RRset.sim Rs) a.q b.q ∧ SimList (RRset.sim Rs) a.an b.an ∧
+    SimList (RRset.sim Rs) a.au b.au ∧ SimList (RRset.sim Rs) a.ad b.ad ∧ a.opt = b.opt ∧ a.tsig = b.tsig
 
 theorem base_out (m : Message) (L a b : Nat) (r : RState) (h : m.base L a b = .ok r) :
     r.out = List.replicate 12 0 ∧ r.tbl = [] ∧ r.origin = m.origin := by
@@ -215,16 +219,18 @@ end Model
 
 namespace Model
 
-theorem tableSound_nil (A : Bytes) : TableSound NameEqv A [] := by
+variable {Rs : RelSpec}
+
+theorem tableSound_nil (A : Bytes) : TableSound Rs.R A [] := by
   intro p hp; simp at hp
 
 theorem keys_nil (rs : List RRset) : ∀ r ∈ rs, ∀ x ∈ ([] : List RRset), keyMatch r.name r.rdclass r.rdtype r.covers none x = false := by
   intro r _ x hx; simp at hx
 
 /-- render-then-parse, absolute names, no OPT/TSIG, not an update -/
-theorem parse_toWire (m : Message) (lim : Nat) (w : Bytes) (hok : MsgOk m) (h : m.toWire lim false = .ok w)
+theorem parse_toWire (m : Message) (lim : Nat) (w : Bytes) (hok : MsgOk Rs m) (h : m.toWire lim false = .ok w)
     (cfg : PCfg) (horg : cfg.origin = none) (hnorr : cfg.oneRRPerRRset = false) :
-    ∃ m', parseMessage cfg w = .ok m' ∧ m'.sim m := by
+    ∃ m', parseMessage cfg w = .ok m' ∧ m'.sim Rs m := by
   obtain ⟨q, hq, hw⟩ := toWire_shape m lim w hok.noOpt hok.noTsig h
   rw [hok.origin] at hq
   -- split the items by section
@@ -287,7 +293,7 @@ theorem parse_toWire (m : Message) (lim : Nat) (w : Bytes) (hok : MsgOk m) (h : 
           -- authority
           have hlA2 : (H ++ qq.1 ++ qa.1).length = 12 + (qq.1 ++ qa.1).length := by simp [hH] <;> omega
           rw [← hlA2] at hqu
-          have hsnda' : TableSound NameEqv (H ++ qq.1 ++ qa.1) ([] ++ (qq.2 ++ qa.2)) := by
+          have hsnda' : TableSound Rs.R (H ++ qq.1 ++ qa.1) ([] ++ (qq.2 ++ qa.2)) := by
             simpa [List.append_assoc] using hsnda
           obtain ⟨au', hpu, hsu, hsndu⟩ := parseSection_rrsets cfg horg hnorr 2 m.au (H ++ qq.1 ++ qa.1) qd.1
             ([] ++ (qq.2 ++ qa.2)) qu (rrCount m.au) 0
@@ -299,7 +305,7 @@ theorem parse_toWire (m : Message) (lim : Nat) (w : Bytes) (hok : MsgOk m) (h : 
           -- additional
           have hlA3 : (H ++ qq.1 ++ qa.1 ++ qu.1).length = 12 + (qq.1 ++ qa.1 ++ qu.1).length := by simp [hH] <;> omega
           rw [← hlA3] at hqd
-          have hsndu' : TableSound NameEqv (H ++ qq.1 ++ qa.1 ++ qu.1) ([] ++ (qq.2 ++ qa.2 ++ qu.2)) := by
+          have hsndu' : TableSound Rs.R (H ++ qq.1 ++ qa.1 ++ qu.1) ([] ++ (qq.2 ++ qa.2 ++ qu.2)) := by
             simpa [List.append_assoc] using hsndu
           obtain ⟨ad', hpd, hsd, _⟩ := parseSection_rrsets cfg horg hnorr 3 m.ad (H ++ qq.1 ++ qa.1 ++ qu.1) []
             ([] ++ (qq.2 ++ qa.2 ++ qu.2)) qd (rrCount m.ad) 0
